@@ -189,35 +189,52 @@ def check(ctx: Ctx):
                       f"AgentDef parameter '{p}' must receive create_agents' argument '{src}', found {kws.get(p)}")
         ctx.check(star == [ca.node.args.kwarg.arg] if ca.node.args.kwarg else False, "R-KWBIND", "extra attributes forwarded", ca, c,
                   "**kwargs of create_agents must be forwarded as the agents' extra attributes")
-        ctx.check(len(c.args) == 1 and norm(c.args[0]) == "name", "R-SIBLING", "agent named by the computed name", ca, c,
-                  "the agent must be constructed with the name computed for its index")
+        nm_arg = c.args[0] if len(c.args) == 1 else None
+        if isinstance(nm_arg, ast.Name):
+            nm_defs = [a.value for a in walk_no_nested(ca.node) if isinstance(a, ast.Assign) and len(a.targets) == 1 and norm(a.targets[0]) == nm_arg.id]
+            lp = [l for l in walk_no_nested(ca.node) if isinstance(l, ast.For) and any(x is c for x in ast.walk(l))]
+            nm_here = [d for d in nm_defs if lp and any(x is d for x in ast.walk(lp[-1]))]
+            nm_arg = nm_here[0] if len(nm_here) == 1 else None
+        ctx.check(nm_arg is not None and any(isinstance(x, ast.Name) and x.id == ca.params[0] for x in ast.walk(nm_arg)), "R-SIBLING", "agent named by the computed name", ca, c,
+                  "the agent must be constructed with the name computed for its index (prefix + index)")
         s = (tuple(sorted(kws.items())), tuple(star))
         if sig is None:
             sig = s
         ctx.check(s == sig, "R-SIBLING", "same arguments in every branch", ca, c, "the index branches must build agents with identical arguments")
-    # branch dispatch: tuple / range / iterable / else raise
-    top_if = [s for s in ca.node.body if isinstance(s, ast.If)]
-    tests = []
-    node = top_if[-1] if top_if else None
-    while isinstance(node, ast.If):
-        tests.append(norm(node.test))
-        nxt = node.orelse
-        if len(nxt) == 1 and isinstance(nxt[0], ast.If):
-            node = nxt[0]
-        else:
-            last_else = nxt
-            break
-    okd = tests[:2] == ["isinstance(indexes, tuple)", "isinstance(indexes, range)"] and len(tests) == 3 and \
-        any(isinstance(s, ast.Raise) for s in last_else)
-    ctx.check(okd, "R-SIBLING", "index kind dispatch", ca, top_if[-1] if top_if else ca.node,
-              "create_agents must dispatch tuple-of-iterables, range and plain iterable, and reject anything else")
-    # each branch stores exactly one agent per iteration, keyed consistently
-    stores = [n for n in walk_no_nested(ca.node) if isinstance(n, ast.Assign) and isinstance(n.targets[0], ast.Subscript)
-              and norm(n.targets[0].value) == "agents"]
-    ctx.check(len(stores) == 3 and all(isinstance(s.value, ast.Call) and call_name(s.value) == "AgentDef" for s in stores), "R-SIBLING",
-              "one agent stored per index", ca, ca.node, "each branch must store exactly one AgentDef per index")
-    rets = [r for r in walk_no_nested(ca.node) if isinstance(r, ast.Return)]
-    ctx.check(len(rets) == 1 and norm(rets[0].value) == "agents", "R-SIBLING", "returns the table", ca, rets[0] if rets else ca.node, "create_agents returns the agents table")
+    # branch dispatch, by cases on the kind of `indexes` (tuple of iterables / range / other iterable / anything else): whatever the arrangement of
+    # the tests, each kind runs one loop that stores one AgentDef per index into a table created empty, and returns that table; anything else raises
+    from ..facts import exec_under
+    ip = ca.params[1]
+    KINDS_ = {"tuple": (True, False, True), "range": (False, True, True), "iterable": (False, False, True), "other": (False, False, False)}
+    n_ok = 0
+    for kind, (is_t, is_r, has_it) in KINDS_.items():
+        def atom(e, is_t=is_t, is_r=is_r, has_it=has_it):
+            t = norm(e)
+            if t == f"isinstance({ip}, tuple)":
+                return is_t
+            if t == f"isinstance({ip}, range)":
+                return is_r
+            if t in (f"hasattr({ip}, '__iter__')", f"isinstance({ip}, Iterable)", f"isinstance({ip}, CollectionIterable)"):
+                return has_it
+            return None
+        body = [s_ for s_ in ca.node.body if not (isinstance(s_, ast.Expr) and isinstance(s_.value, ast.Constant))]
+        eff, k = exec_under(body, atom, opaque=True)
+        if kind == "other":
+            ctx.check(k == "raise", "R-SIBLING", "index kind dispatch", ca, eff[-1] if eff else ca.node,
+                      "create_agents must dispatch tuple-of-iterables, range and plain iterable, and reject anything else")
+            continue
+        loops = [x for x in eff if isinstance(x, ast.For)]
+        okk = k == "return" and len(loops) == 1 and isinstance(eff[-1], ast.Return) and isinstance(eff[-1].value, ast.Name)
+        if okk:
+            tbl = eff[-1].value.id
+            inits = [x for x in eff if isinstance(x, ast.Assign) and norm(x.targets[0]) == tbl]
+            st_ = [x for x in ast.walk(loops[0]) if isinstance(x, ast.Assign) and isinstance(x.targets[0], ast.Subscript) and norm(x.targets[0].value) == tbl]
+            src = norm(loops[0].iter)
+            okk = len(inits) == 1 and norm(inits[0].value) == "{}" and eff.index(inits[0]) < eff.index(loops[0]) and len(st_) == 1 and isinstance(st_[0].value, ast.Call) and call_name(st_[0].value) == "AgentDef" \
+                and (src == ip or (kind == "tuple" and src == f"itertools.product(*{ip})"))
+        ctx.check(okk, "R-SIBLING", f"index kind dispatch: {kind}", ca, loops[0] if loops else ca.node,
+                  f"for a {kind} index create_agents must run one loop over the indexes that stores one AgentDef per index into a fresh table and return that table (outcome {k})")
+        n_ok += 1 if okk else 0
     ctx.floor("R-KWBIND", 12)
 
 
